@@ -1,8 +1,11 @@
 """C12  Analytic integration returns the true integral of the model.
 
 Per case: one spectrum (model kind x parameters x source/bandpass x native flux unit), one call of
-``<spectrum>.integrate(wavelengths=x, integration_type=t)`` under ``conf.default_integrator = c``
-(set with ``conf.set_temp`` and checked to be restored).
+``<spectrum>.integrate(wavelengths=x, integration_type=t, **keywords)`` under
+``conf.default_integrator = c`` (set with ``conf.set_temp`` and checked to be restored); the keywords
+are drawn from everything the method accepts (``flux_unit`` absent / None / PHOTLAM / FLAM by name or
+unit / units it must refuse, plus keywords it forwards to ``__call__``), for models with and without
+an analytic form.
 
 * correspondence: value, unit class and integrator actually used vs the Lean model
   (``specIntegrate`` at K = Q); ``sp(x)`` vs the model's closed form of ``evaluate`` (``c12_eval``).
@@ -10,8 +13,8 @@ Per case: one spectrum (model kind x parameters x source/bandpass x native flux 
   (stable formulas, independent of the coded ones) in the documented unit; analytic vs trapezoid under
   three successive four-fold refinements (3126 .. 200001 points; error must fall, final relative error < 1e-6;
   box: at most step/width); NotImplementedError for Ricker partial ranges; fallback for models
-  without ``integrate`` is bit-identical to an explicit trapezoid request and never calls an
-  ``integrate`` method; unknown integration type rejected; configuration restored.
+  without ``integrate`` gives exactly (value, unit, exception class) what an explicit trapezoid request with
+  the SAME keywords gives and never calls an ``integrate`` method; flux_unit refusals; unknown integration type rejected; configuration restored.
 """
 import math
 from fractions import Fraction as F
@@ -29,13 +32,18 @@ JY = F(1, 10 ** 23)
 
 ANALYTIC = ['box', 'const', 'gauss', 'gaussflux', 'lorentz', 'ricker', 'powerlaw', 'trapezoid',
             'blackbody', 'blackbodynorm']
-FALLBACK = ['empirical', 'const1d', 'sum']
-SOURCE_ONLY = {'const', 'gaussflux', 'powerlaw', 'blackbody', 'blackbodynorm', 'sum'}
+FALLBACK = ['empirical', 'const1d', 'sum', 'redshift']
+SOURCE_ONLY = {'const', 'gaussflux', 'powerlaw', 'blackbody', 'blackbodynorm', 'sum', 'redshift'}
 BANDPASS_ONLY = {'const1d'}
 AMP_UNITS = ['photlam', 'flam', 'photnu', 'fnu', 'jy', 'mjy']
 JY_SCALE = {'jy': F(1), 'mjy': F(1, 1000)}
 LEVELS = [3126, 12501, 50001, 200001]      # three successive four-fold refinements (nested grids)
 EPS = 2.0 ** -52
+FCONV = {'box': 'x0', 'gauss': 'mean', 'gaussflux': 'mean', 'lorentz': 'x0', 'ricker': 'x0', 'trapezoid': 'x0'}
+# the flux_unit keyword of the primary call: how it is passed -> class seen by the model
+FU_CLASS = {'absent': 'absent', 'none_explicit': 'absent', 'photlam': 'photlam', 'PHOTLAM': 'photlam',
+            'photlam_unit': 'photlam', 'flam': 'flam', 'FLAM': 'flam', 'flam_unit': 'flam', 'fnu': 'notwav',
+            'jy_unit': 'notwav', 'count': 'notwav', 'angstrom_unit': 'notwav', 'foo': 'unparsable'}
 
 
 def lat(rng, lo, hi, bits=4):
@@ -66,12 +74,41 @@ def amp_quantity(a, unit):
                 'jy': u.Jy, 'mjy': u.mJy, 'stmag': u.STmag, 'abmag': u.ABmag}[unit]
 
 
-def build(desc, cls):
+def call_kwargs(case):
+    """the keyword options of the primary integrate call (and, identically, of its explicit-trapezoid twin)"""
+    import astropy.units as u
+    from synphot import units
+    kw = {}
+    fu = case.get('fu', 'absent')
+    if fu != 'absent':
+        kw['flux_unit'] = {'none_explicit': None, 'photlam': 'photlam', 'PHOTLAM': 'PHOTLAM', 'photlam_unit': units.PHOTLAM,
+                           'flam': 'flam', 'FLAM': 'FLAM', 'flam_unit': units.FLAM, 'fnu': 'fnu', 'jy_unit': u.Jy,
+                           'count': 'count', 'angstrom_unit': u.AA, 'foo': 'foo'}[fu]
+    xk = case.get('xkw')
+    if xk == 'area':
+        kw['area'] = 5.0 * u.cm ** 2
+    elif xk == 'bogus':
+        kw['bogus'] = 5
+    return kw
+
+
+def fu_class(case):
+    return FU_CLASS[case.get('fu', 'absent')]
+
+
+def has_kw(case):
+    return case.get('fu', 'absent') == 'none_explicit' or case.get('xkw') is not None
+
+
+def build(desc, cls, z=None):
     from synphot import SourceSpectrum, SpectralElement, models, units
     from astropy.modeling.models import Const1D
     S = SourceSpectrum if cls == 'source' else SpectralElement
+    if z is not None:
+        def S(modelclass, **kw):
+            return SourceSpectrum(modelclass, z=z, **kw)
     k = desc['kind']
-    p = {n: fl(v) for n, v in desc.items() if n not in ('kind', 'unit', 'pts', 'vals', 'a', 'b', 'form', 'given') and v is not None}
+    p = {n: fl(v) for n, v in desc.items() if n not in ('kind', 'unit', 'pts', 'vals', 'a', 'b', 'm', 'form', 'given') and v is not None}
     if k == 'box':
         return S(models.Box1D, amplitude=p['amp'], x_0=p['x0'], width=p['width'])
     if k == 'gauss':
@@ -105,6 +142,8 @@ def build(desc, cls):
         return S(Const1D, amplitude=p['amp'])
     if k == 'sum':
         return build(desc['a'], cls) + build(desc['b'], cls)
+    if k == 'redshift':
+        return build(desc['m'], 'source', z=p['zp1'] - 1)
     raise KeyError(k)
 
 
@@ -170,7 +209,7 @@ def impl_call(case):
     def f():
         sp = build(case['model'], case['cls'])
         box['sp'] = sp
-        r, path, restored = integrate_call(sp, x, case['itype'], case['conf'])
+        r, path, restored = integrate_call(sp, x, case['itype'], case['conf'], call_kwargs(case))
         box['restored'] = restored
         return {'value': float(r.value), 'unit': unit_class(r), 'path': path}
     out = guarded(f)
@@ -178,7 +217,10 @@ def impl_call(case):
     sp = box.get('sp')
     if sp is not None and case.get('twin'):
         # the same request as an explicit trapezoid call (fallback must be this very computation)
-        extra['twin'] = guarded(lambda: float(integrate_call(sp, x, 'trapezoid', case['conf'])[0].value))
+        def twin():
+            r = integrate_call(sp, x, 'trapezoid', case['conf'], call_kwargs(case))[0]
+            return {'value': float(r.value), 'unit': unit_class(r)}
+        extra['twin'] = guarded(twin)
     if sp is not None and case.get('grid') and 'ok' in out:
         kw = {'flux_unit': 'flam'} if out['ok']['unit'] == 'energy' else {}
 
@@ -197,6 +239,8 @@ def model_desc(desc):
         d['unit'] = {'jy': q(JY_SCALE[d['unit']])} if d['unit'] in JY_SCALE else d['unit']
     if d['kind'] == 'sum':
         d['a'], d['b'] = model_desc(d['a']), model_desc(d['b'])
+    if d['kind'] == 'redshift':
+        d['m'] = model_desc(d['m'])
     return d
 
 
@@ -204,7 +248,8 @@ def model_case(case):
     if case['op'] == 'eval':
         return {'op': 'c12_eval', 'const': case['_const'], 'model': model_desc(case['model']), 'x': case['x']}
     return {'op': 'c12_integrate', 'const': case['_const'], 'unitless': case['cls'] == 'bandpass',
-            'model': model_desc(case['model']), 'x': case['x'], 'itype': case['itype'], 'conf': case['conf']}
+            'model': model_desc(case['model']), 'x': case['x'], 'itype': case['itype'], 'conf': case['conf'],
+            'fu': fu_class(case), 'kw': has_kw(case)}
 
 
 # ------------------------------------------------------------------ closed forms of the true integrals (oracle)
@@ -316,6 +361,15 @@ def oracle(rep, case, out):
     extra = out.get('extra', {})
     if not extra.get('restored', True):
         rep.oracle_fail('integrate:conf:not restored', 'conf.default_integrator differs after the call', case, out)
+    fuc, ul, kwp = fu_class(case), case['cls'] == 'bandpass', has_kw(case)
+    # --- the flux_unit keyword is checked before anything else
+    if fuc != 'absent' and (ul or fuc in ('notwav', 'unparsable')):
+        want = 'SynphotError' if (ul or fuc == 'notwav') else None          # unparsable: any exception
+        if 'err' not in out or (want and out['err'] != want):
+            rep.oracle_fail('integrate:flux_unit:%s:%s' % ('unitless' if ul else fuc, out.get('err', 'returned')),
+                            'flux_unit=%r on a %s was not refused%s' % (case.get('fu'), case['cls'],
+                                                                       ' with SynphotError' if want else ''), case, out)
+        return
     path, err = expected_path(case)
     if err:
         if out.get('err') != err:
@@ -323,17 +377,31 @@ def oracle(rep, case, out):
                             'integration_type=%r was not rejected with NotImplementedError' % case['itype'], case, out)
         return
     if path == 'trapezoid':
+        # the fallback is the very computation of an explicit trapezoid request with the same keywords:
+        # same exception class, or bit-identical value in the same unit
+        if case.get('twin'):
+            tw = extra.get('twin', {})
+            same_out = (tw.get('err') == out['err']) if 'err' in out else \
+                ('ok' in tw and tw['ok']['value'] == out['ok']['value'] and tw['ok']['unit'] == out['ok']['unit'])
+            if not same_out:
+                rep.oracle_fail('integrate:%s:fallback:differs from trapezoid' % kind,
+                                'fallback gave %s, the explicit trapezoid request with the same keywords %r gives %s' % (
+                                    {k: v for k, v in out.items() if k in ('ok', 'err')}, sorted(call_kwargs(case)), tw),
+                                case, out)
+                return
+        if ul and kwp:
+            return          # a unitless spectrum cannot be sampled with keywords (TypeError); covered by the model
         if 'err' in out:
             rep.oracle_fail('integrate:%s:trapezoid:%s' % (kind, out['err']), 'trapezoid integration failed: %s' % out, case, out)
             return
         if out['ok']['path'] != 'trapezoid':
             rep.oracle_fail('integrate:%s:dispatch:analytical ran' % kind,
                             'the analytic integrator ran although trapezoid was selected', case, out)
-        if case.get('twin'):
-            tw = extra.get('twin', {})
-            if tw.get('ok') != out['ok']['value']:
-                rep.oracle_fail('integrate:%s:fallback:differs from trapezoid' % kind,
-                                'fallback result %r != explicit trapezoid %r' % (out['ok']['value'], tw), case, out)
+        want_unit = 'length' if ul else 'energy' if fuc == 'flam' else 'photon'
+        if out['ok']['unit'] != want_unit:
+            rep.oracle_fail('integrate:%s:trapezoid:unit:%s' % (kind, out['ok']['unit']),
+                            'trapezoid result in unit class %s, documented %s for flux_unit=%r' % (
+                                out['ok']['unit'], want_unit, case.get('fu', 'absent')), case, out)
         return
     # analytical
     if kind == 'ricker' and ricker_partial(case):
@@ -353,6 +421,14 @@ def oracle(rep, case, out):
                         'the model has integrate() and analytical was selected but it was not called', case, out)
         return
     v, unit, atol = true_integral(case)
+    if fuc != 'absent':
+        # an explicit flux_unit: the code converts the analytic result only for the model classes that have a
+        # reference wavelength (x hc/lambda_ref for FLAM); for the others it is documented as not convertible
+        if kind not in FCONV or case['cls'] != 'source':
+            return
+        if fuc == 'flam':
+            fac = float(H * C) / fl(case['model'][FCONV[kind]])
+            v, unit, atol = v * fac, 'energy', atol * fac
     if o['unit'] != unit:
         rep.oracle_fail('integrate:%s:unit:%s' % (fc or kind, o['unit']),
                         'result unit class %s, documented %s' % (o['unit'], unit), case, out)
@@ -361,7 +437,7 @@ def oracle(rep, case, out):
         rep.oracle_fail('integrate:%s:value' % (fc or kind),
                         'analytic result %r, true integral %r' % (o['value'], v), case, out)
         return
-    if case.get('grid'):
+    if case.get('grid') and fuc == 'absent':
         tr = extra.get('trap', {})
         if 'err' in tr:
             rep.oracle_fail('integrate:%s:refinement:%s' % (kind, tr['err']), 'trapezoid on the refinement grids failed: %s' % tr,
@@ -495,6 +571,10 @@ def gen_model(rng, kind, cls, lattice):
         return {'kind': 'empirical', 'pts': qs(pts), 'vals': qs(vals)}
     if kind == 'const1d':
         return {'kind': 'const1d', 'amp': q(lat(rng, 0, 2, 6))}
+    if kind == 'redshift':
+        # 1 + z a power of two: the rest-frame wavelength x/(1+z) is exact
+        return {'kind': 'redshift', 'zp1': q(rng.choice([2.0, 4.0, 0.5, 0.25])),
+                'm': gen_model(rng, rng.choice(['box', 'gauss', 'lorentz', 'trapezoid']), 'source', True)}
     if kind == 'sum':
         return {'kind': 'sum', 'a': gen_model(rng, 'box', cls, True), 'b': gen_model(rng, rng.choice(['gauss', 'lorentz', 'box']), cls, True)}
     raise KeyError(kind)
@@ -596,6 +676,8 @@ def small_grid(rng, d):
         p = [fl(v) for v in d['pts']]
         pts = set(lattice_grid(rng, max(p[0] - 200, 1), p[-1] + 200, n)) | (set(p) if rng.random() < 0.5 else set())
         return sorted(pts)
+    if k == 'redshift':
+        return sorted({t * fl(d['zp1']) for t in small_grid(rng, d['m'])})
     if k == 'sum':
         return sorted(set(small_grid(rng, d['a'])) | set(small_grid(rng, d['b'])))
     if k == 'const1d':
@@ -641,6 +723,16 @@ def make_case(rng, kind, K, refine_p):
     d = gen_model(rng, kind, cls, lattice)
     case = {'op': 'integrate', 'cls': cls, 'model': d, 'itype': itype, 'conf': conf, '_const': K}
     finish_desc(case)
+    # keyword options of the call: everything integrate() accepts (flux_unit in every spelling, keywords it
+    # forwards to __call__ / convert_flux); about half of the cases stay keyword-free (native units)
+    if rng.random() < (0.7 if kind in FALLBACK else 0.45):
+        if cls == 'source':
+            case['fu'] = rng.choice(['flam', 'flam', 'flam_unit', 'FLAM', 'photlam', 'PHOTLAM', 'photlam_unit', 'fnu', 'jy_unit',
+                                     'count', 'angstrom_unit', 'foo', 'none_explicit', 'absent'])
+            case['xkw'] = rng.choice([None, None, None, 'area', 'bogus'])
+        else:
+            case['fu'] = rng.choice(['absent', 'absent', 'absent', 'flam', 'flam_unit', 'foo', 'none_explicit'])
+            case['xkw'] = rng.choice([None, 'area', 'area', 'bogus'])
     if analytic or err:
         if kind in ('lorentz', 'const', 'powerlaw'):
             a, b, geom = gen_limits(rng, d)
@@ -669,6 +761,8 @@ def make_case(rng, kind, K, refine_p):
         case['x'] = qs(small_grid(rng, d))
         if kind in FALLBACK and (itype == 'analytical' or (itype is None and conf == 'analytical')):
             case['twin'] = True
+    if fu_class(case) != 'absent':
+        case.pop('grid', None)
     if rng.random() < 0.01:
         xs = [fl(v) for v in case['x']]
         case['x'] = qs(rng.choice([[xs[0], xs[0]], [xs[-1], xs[0] / 2, xs[-1] * 2], [-xs[0], xs[-1]], [0.0] + xs]))
@@ -701,6 +795,8 @@ def value_atol(case):
             return 1e-9 * (fl(d['a']['amp']) + fl(d['b']['amp']))
         if k == 'ricker':
             return 1e-12 * fl(d['amp'])
+        if k == 'redshift':
+            return 1e-9 * fl(d['m']['amp']) if d['m']['kind'] == 'trapezoid' else 0.0
         return 0.0
     try:
         a, b = min(xs), max(xs)
@@ -740,6 +836,8 @@ def tags(c, o):
         t.append('ampunit:' + c['model']['unit'])
     if c.get('grid'):
         t.append('refined')
+    t.append('flux_unit:' + c.get('fu', 'absent'))
+    t.append('extra_kw:' + str(c.get('xkw')))
     return t
 
 
@@ -751,10 +849,10 @@ def strip(rep):
     rep.samples = [{k: v for k, v in s.items() if k != '_const'} if isinstance(s, dict) else s for s in rep.samples]
 
 
-RULE = ('13 model kinds (10 with integrate(): box, constant, Gaussian, Gaussian-flux, Lorentzian, Ricker, power law, trapezoid, '
-        'black body, normalised black body; 3 without: Empirical1D, Const1D, a compound sum) x source/bandpass x amplitude '
+RULE = ('14 model kinds (10 with integrate(): box, constant, Gaussian, Gaussian-flux, Lorentzian, Ricker, power law, trapezoid, '
+        'black body, normalised black body; 4 without: Empirical1D, Const1D, a compound sum, a source with z != 0) x source/bandpass x amplitude '
         'unit (PHOTLAM, FLAM, PHOTNU, FNU, Jy, mJy, STmag, ABmag where the model takes one) x conf.default_integrator in '
-        '{trapezoid, analytical} x integration_type in {analytical, None, trapezoid, 7 unknown names}; amplitudes 0 or '
+        '{trapezoid, analytical} x integration_type in {analytical, None, trapezoid, 7 unknown names} x keyword options of the call (45% of the cases, 70% for the models without integrate(): flux_unit in {absent, None, photlam/PHOTLAM/units.PHOTLAM, flam/FLAM/units.FLAM, fnu, Jy, count, Angstrom, an unparsable name} x {no other keyword, area=, an unknown keyword}; the explicit-trapezoid twin of a fallback gets the same keywords); amplitudes 0 or '
         'log-uniform over 28 decades (sources) / 7 decades (bandpasses); centres log-uniform 200..1e5 A, widths 3e-5..0.4 of the '
         'centre; power-law index: the singular one exactly (1 per wavelength, -1 per frequency; 20%), singular +- 2^-k for k = 2..20 (20%), integers and reals in [-4, 6]; temperatures '
         '30..3e5 K; limits: around the line / one wing (Lorentz), containing both roots or one of 6 partial layouts incl. exactly on a '
